@@ -317,7 +317,7 @@ pub fn gen_data<T: Flt>(
 /// trailing (lane) shapes including non-square, length-1 and (optionally) length-0 axes
 pub fn gen_lane_shape(rng: &mut Rng, max_rank: usize, allow_zero: bool) -> Vec<usize> {
     let rank = rng.below(max_rank + 1);
-    (0..rank)
+    let mut s: Vec<usize> = (0..rank)
         .map(|_| {
             let r = rng.below(10);
             if r == 0 && allow_zero {
@@ -328,7 +328,13 @@ pub fn gen_lane_shape(rng: &mut Rng, max_rank: usize, allow_zero: bool) -> Vec<u
                 2 + rng.below(3)
             }
         })
-        .collect()
+        .collect();
+    // keep the number of lanes moderate (the exact checker is per lane)
+    while s.iter().product::<usize>() > 24 {
+        let i = (0..s.len()).max_by_key(|&i| s[i]).unwrap();
+        s[i] -= 1;
+    }
+    s
 }
 
 /// in-range query set: every knot, both neighbouring floats of every knot (clipped to the
